@@ -17,7 +17,7 @@ const modelsPath = "github.com/go-kid/ioc/zzverif/models"
 // libStub: contract stubs of third-party libraries and engine hooks of the models package.
 func (x *Exec) libStub(fn *ssa.Function, args []Val, site string) (Val, bool) {
 	name := x.w.name(fn)
-	if strings.HasPrefix(name, "(*github.com/spf13/viper.Viper).") || name == "github.com/spf13/viper.New" || name == "os.Setenv" {
+	if strings.HasPrefix(name, "(*github.com/spf13/viper.Viper).") || name == "github.com/spf13/viper.New" || name == "os.Setenv" || name == "gopkg.in/yaml.v3.Marshal" {
 		if v, ok := x.viperStub(fn, args); ok {
 			return v, true
 		}
